@@ -3,7 +3,7 @@ import json
 import wv
 from props import filelevel as fl
 PID = "C12"
-ONLY = ["verification and decryption disagree", "verification wrote output", "modified its input", "did not return normally"]
+ONLY = ["verification and decryption disagree", "verification wrote output", "modified its input", "did not return normally", "non-seekable output"]
 
 
 def run(tier, replay):
@@ -22,7 +22,7 @@ def run(tier, replay):
     acc = sum(1 for e in ops if e["dec_ret"] == 1)
     keys = set((e["cls"], e["kind"], e["T"], len(e["C"]), e["ver_ret"]) for e in ops)
     res.cov.update({"evaluations": len(ops), "distinct_nontrivial": len(keys), "accepted_cases": acc,
-                    "rule": "a mix of the C05/C06/C11/C13 drivers (valid, tampered, truncated, malformed, wrong key, crash states): every event records both verdicts of execute_verify and execute_decrypt on the same bytes and key, the size of what verify wrote, and a byte comparison of the input before/after each operation; TLC evaluates VerifyOK <=> DecryptOK, no output from verify, inputs intact on every event. Distinct = (class, kind, T, length, verdict).",
+                    "rule": "a mix of the C05/C06/C11/C13 drivers (valid, tampered, truncated, malformed, wrong key, crash states): every event records the verdicts of execute_verify, execute_decrypt into a file and execute_decrypt into a pipe (non-seekable output) on the same bytes and key, with echo on, the size of what verify wrote, and a byte comparison of the input before/after each operation; TLC evaluates VerifyOK <=> DecryptOK (both sinks, same bytes delivered), no output from verify, inputs intact on every event. Distinct = (class, kind, T, length, verdict).",
                     "traces_validated_against_impl": len(ops), "validator_states": st["states"], "exhaustive": False})
     for e in ops[:: max(1, len(ops) // 3)][:3]:
         res.sample(fl.describe(e))
